@@ -324,71 +324,142 @@ def bl5(ctx, R):
 
 @rule("BL6", "the index file is the data file minus raw data with the tag replaced", floor=5)
 def bl6(ctx, R):
+    """is_index_file may only select the tag of the lead-in and skip the raw data; write_segment writes two segments built from the same
+    objects and version, the plain one to the data stream and the index twin to the index stream.  Decided on normal forms: segment
+    constructions and write calls are collected through helpers with their parameters substituted."""
+    from .sym import Sym, show, alpha, eval_cond, same
+    from .sem import find, W, match, calls_to, call_arg, subst
+    from .region import region, call_reaches
     prog = ctx.prog
     seg = prog.cls("writer.TdmsSegment")
-    uses = []
-    for name, fi in seg.methods.items():
+    FLAG = ("self", "is_index_file")
+    users = [fi for fi in seg.methods.values() if fi.name != "__init__" and any(
+        isinstance(n, ast.Attribute) and n.attr == "is_index_file" and isinstance(n.ctx, ast.Load) for n in walk_body(fi.node))]
+    if not users:
+        raise AnchorMissing("writer.TdmsSegment: uses of is_index_file")
+    wd = "writer.TdmsSegment._write_data"
+    for fi in sorted(users, key=lambda f: f.qual):
+        key = "%s::is_index_file" % fi.qual
+        sy = Sym(prog, fi, seg, inline=False)
+        v = sy.function_value()
+        uses_in_value = find(v, FLAG) if v[0] != "opaque" else []
+        tag_phis = find(v, ("phi", FLAG, ("const", b"TDSh"), ("const", b"TDSm"))) if v[0] != "opaque" else []
+        # statements guarded by the flag
+        guarded = []
+        for st in walk_body(fi.node):
+            if isinstance(st, ast.Return) and st.value is None:
+                continue
+            if isinstance(st, (ast.Expr, ast.Assign, ast.AugAssign, ast.Return)):
+                _env, guards = sy.env_at(st)
+                if any(find(g, FLAG) for g in guards):
+                    guarded.append((st, guards))
+        if uses_in_value and not guarded:
+            R.check(len(tag_phis) >= 1 and len(uses_in_value) == len(tag_phis), key + " selects the tag", fi.where(), "TDSh for the index file, TDSm for the data file",
+                    "is_index_file influences %s other than by selecting TDSh/TDSm: `%s`" % (fi.name, show(alpha(v))[:200]))
+            continue
+        ok = bool(guarded)
+        for st, guards in guarded:
+            calls = [c for c in ast.walk(st) if isinstance(c, ast.Call)]
+            only_raw = isinstance(st, ast.Expr) and len(calls) >= 1 and call_reaches(ctx, fi, calls[0], {wd}) and isinstance(st.value, ast.Call) and st.value is calls[0]
+            run_index = not any(eval_cond(g, lambda c: True if c == FLAG else None) is False for g in guards)
+            run_data = not any(eval_cond(g, lambda c: False if c == FLAG else None) is False for g in guards)
+            if not (only_raw and run_data and not run_index):
+                ok = False
+        # every syntactic use is the test of such an `if` (or the tag selection)
+        stray = []
         for n in walk_body(fi.node):
             if isinstance(n, ast.Attribute) and n.attr == "is_index_file" and isinstance(n.ctx, ast.Load):
-                uses.append((fi, n))
-    if not uses:
-        raise AnchorMissing("writer.TdmsSegment: uses of is_index_file")
-    for fi, n in uses:
-        key = "%s::is_index_file" % fi.qual
-        if fi.name == "leadin":
-            # must be the test of the tag IfExp
-            ok = False
-            for x in walk_body(fi.node):
-                if isinstance(x, ast.IfExp) and x.test is n:
-                    a, b = prog.try_fold(x.body, fi.module), prog.try_fold(x.orelse, fi.module)
-                    ok = (a, b) == (b"TDSh", b"TDSm")
-                if isinstance(x, ast.IfExp) and isinstance(x.test, ast.UnaryOp) and x.test.operand is n:
-                    a, b = prog.try_fold(x.body, fi.module), prog.try_fold(x.orelse, fi.module)
-                    ok = (a, b) == (b"TDSm", b"TDSh")
-            R.check(ok, key + " selects the tag", fi.where(n), "TDSh for the index file, TDSm for the data file",
-                    "is_index_file influences the lead-in other than by selecting TDSh/TDSm")
-        elif fi.name == "write":
-            ok = False
-            for x in walk_body(fi.node):
-                if isinstance(x, ast.If) and any(y is n for y in ast.walk(x.test)):
-                    body_calls = [call_name(c) for s in x.body for c in walk_shallow(s) if isinstance(c, ast.Call)]
-                    neg = isinstance(x.test, ast.UnaryOp) and isinstance(x.test.op, ast.Not)
-                    ok = neg and body_calls == ["self._write_data"] and not x.orelse
-            R.check(ok, key + " guards the raw data", fi.where(n), "raw data is written iff this is not the index file",
-                    "is_index_file influences write() other than by skipping the raw data")
-        elif fi.name == "__init__":
-            continue
-        else:
-            R.violation(key, fi.where(n), "is_index_file influences %s: lead-in offsets / metadata of the index file would differ from the data "
-                        "file's, but the index must be byte-identical apart from the tag and the missing raw data" % fi.name)
+                in_if_test = any(isinstance(x, ast.If) and any(y is n for y in ast.walk(x.test)) for x in walk_body(fi.node))
+                in_tag = any(isinstance(x, ast.IfExp) and any(y is n for y in ast.walk(x.test)) and
+                             sorted([repr(prog.try_fold(x.body, fi.module)), repr(prog.try_fold(x.orelse, fi.module))]) == [repr(b"TDSh"), repr(b"TDSm")]
+                             for x in walk_body(fi.node))
+                if not (in_if_test or in_tag):
+                    stray.append(n)
+        R.check(ok and not uses_in_value and not stray, key + " guards the raw data", fi.where(), "raw data is written iff this is not the index file",
+                "is_index_file influences %s() other than by skipping the raw data" % fi.name)
+    # the two writes of write_segment
     ws = prog.func("writer.TdmsWriter.write_segment")
-    ctors = [c for c in walk_body(ws.node) if isinstance(c, ast.Call) and isinstance(c.func, ast.Name) and c.func.id == "TdmsSegment"]
-    if len(ctors) != 2:
-        # a different scheme for producing the index file
+    init = prog.func("writer.TdmsSegment.__init__")
+    events = []
+
+    def collect(f, binding, outer_guards, depth):
+        sf = Sym(prog, f, f.cls, inline=False)
+        for c in walk_body(f.node):
+            if not isinstance(c, ast.Call):
+                continue
+            if isinstance(c.func, ast.Attribute) and c.func.attr == "write" and len(c.args) == 1:
+                env, guards = sf.env_at(c)
+                base = sf.expr(c.func.value, env)
+                if base[0] == "new" and base[1] == seg.qual:
+                    ev = {"stream": sf.expr(c.args[0], env), "guards": tuple(outer_guards) + tuple(guards), "where": f.where(c)}
+                    dummy = ast.Call(func=ast.Name(id="TdmsSegment", ctx=ast.Load()), args=[], keywords=[])
+                    ps = [p for p in init.params if p != "self"]
+                    vals = {}
+                    for k_, p_ in enumerate(ps):
+                        if k_ < len(base[2]):
+                            vals[p_] = base[2][k_]
+                    for kn, kv in base[3]:
+                        vals[kn] = kv
+                    for p_, d_ in init.defaults.items():
+                        if p_ not in vals:
+                            vals[p_] = Sym(prog, init, seg).expr(d_, {})
+                    ev.update(vals)
+                    for k_ in list(ev):
+                        if k_ not in ("guards", "where"):
+                            for p_, a_ in binding.items():
+                                ev[k_] = subst(ev[k_], ("param", p_), a_)
+                    ev["guards"] = tuple(subst(g, ("param", p_), a_) for g in ev["guards"] for p_, a_ in [(None, None)]) if not binding else tuple(
+                        _subst_all(g, binding) for g in ev["guards"])
+                    events.append(ev)
+            elif depth > 0:
+                from .flow import resolve_call
+                for t, _k in resolve_call(prog, f, f.cls, c):
+                    if t.module.name == "writer" and t.cls is f.cls and t is not f and not t.is_generator:
+                        env, guards = sf.env_at(c)
+                        b2 = {}
+                        for p_ in [x for x in t.params if x != "self"]:
+                            a_ = call_arg(prog, c, t, p_, sf, env)
+                            if a_ is not None:
+                                b2[p_] = _subst_all(a_, binding)
+                        collect(t, b2, tuple(outer_guards) + tuple(_subst_all(g, binding) for g in guards), depth - 1)
+    collect(ws, {}, (), 1)
+    if len(events) != 2:
         bad = [c for c in ast.walk(prog.module("writer").tree) if isinstance(c, ast.Call) and isinstance(c.func, ast.Attribute)
                and c.func.attr == "replace" and c.args and isinstance(prog.try_fold(c.args[0], prog.module("writer")), bytes)]
         if bad:
             R.violation("writer::tag replaced by substring replacement", "%s:%d" % (prog.module("writer").relpath, bad[0].lineno),
                         "`%s` rewrites every occurrence of the tag bytes in serialised metadata, including occurrences inside object names and "
                         "property values" % unparse(bad[0])[:80])
-        raise AnchorMissing("writer.TdmsWriter.write_segment: two TdmsSegment constructions (data and index), found %d" % len(ctors))
-    a, b = sorted(ctors, key=lambda c: c.lineno)
-    kw_a = {k.arg: unparse(k.value) for k in a.keywords}
-    kw_b = {k.arg: unparse(k.value) for k in b.keywords}
-    same_objs = a.args and b.args and unparse(a.args[0]) == unparse(b.args[0])
-    R.check(bool(same_objs) and kw_a.get("version") == kw_b.get("version"), "writer.TdmsWriter.write_segment::same objects and version", ws.where(a),
-            "both segments are built from the same object list and version",
-            "data and index segments are built from different inputs (%s / %s)" % (unparse(a), unparse(b)))
-    R.check(kw_b.get("is_index_file") == "True" and "is_index_file" not in kw_a, "writer.TdmsWriter.write_segment::index flag", ws.where(b),
-            "second segment is the index twin", "index flag not set on exactly the second segment")
-    wcalls = sorted([c for c in walk_body(ws.node) if isinstance(c, ast.Call) and call_name(c) == "segment.write"], key=lambda c: c.lineno)
-    tgt = [unparse(c.args[0]) for c in wcalls if c.args]
-    R.check(tgt == ["self._file", "self._index_file"], "writer.TdmsWriter.write_segment::streams", ws.where(),
-            "data segment -> data stream, index segment -> index stream", "segments are written to %s" % tgt)
+        raise AnchorMissing("writer.TdmsWriter.write_segment: two TdmsSegment constructions (data and index), found %d" % len(events))
+    objp = [p for p in init.params if p != "self"][0]
+    flagp = [p for p in init.params if "index" in p][0]
+    verp = [p for p in init.params if "version" in p][0]
+    data = [e for e in events if e.get(flagp) == ("const", False)]
+    index = [e for e in events if e.get(flagp) == ("const", True)]
+    R.check(len(data) == 1 and len(index) == 1, "writer.TdmsWriter.write_segment::index flag", ws.where(),
+            "one plain segment and one index twin", "index flag not set on exactly one of the two segments (%s)" % [show(e.get(flagp)) for e in events])
+    if len(data) == 1 and len(index) == 1:
+        a, b = data[0], index[0]
+        R.check(same(a[objp], b[objp]) and same(a[verp], b[verp]), "writer.TdmsWriter.write_segment::same objects and version", a["where"],
+                "both segments are built from the same object list and version",
+                "data and index segments are built from different inputs (%s / %s)" % (show(alpha(a[objp]))[:80], show(alpha(b[objp]))[:80]))
+        streams = (a["stream"], b["stream"])
+        R.check(streams == (("self", "_file"), ("self", "_index_file")), "writer.TdmsWriter.write_segment::streams", ws.where(),
+                "data segment -> data stream, index segment -> index stream", "segments are written to %s" % [show(x) for x in streams])
+        has_guard = any(g == ("cmp", "is not", ("self", "_index_file"), ("const", None)) or g == ("self", "_index_file") for g in b["guards"])
+        R.check(has_guard and not any(find(g, ("self", "_index_file")) for g in a["guards"]), "writer.TdmsWriter.write_segment::index written only when there is an index stream",
+                b["where"], "the index twin is written iff an index stream exists", "the index segment is not guarded by the presence of the index stream")
     bad = [c for c in ast.walk(prog.module("writer").tree) if isinstance(c, ast.Call) and isinstance(c.func, ast.Attribute)
            and c.func.attr == "replace" and c.args and isinstance(prog.try_fold(c.args[0], prog.module("writer")), bytes)]
     R.check(not bad, "writer::no byte-level tag rewriting", ws.where(), "no bytes.replace on serialised data",
             "serialised bytes are rewritten with bytes.replace")
+
+
+def _subst_all(v, binding):
+    from .sem import subst
+    for p_, a_ in binding.items():
+        v = subst(v, ("param", p_), a_)
+    return v
 
 
 def _key_reaches_ordering(prog, fi, key_expr):
